@@ -280,10 +280,18 @@ static void dense_sym_shift(const Data& d, int tycode, double sigma, bool strict
     SolveLog s = run_solve<Sc>(n, M, xl, [&](int variant) {
         Mat A = poisoned<Mat>(d.S, Uplo, variant);
         DenseSymShiftSolve<Sc, Uplo, Flags> op(A);
-        op.set_shift((Sc) (sigma + 1.25));   // an earlier factorization on the same object must leave no trace
-        op.set_shift((Sc) sigma);
         Vec x = d.x.cast<double>().template cast<Sc>(), y(n);
-        op.perform_op(x.data(), y.data());
+        try
+        {
+            op.set_shift((Sc) (sigma + 1.25));   // an earlier factorization on the same object must leave no trace
+            op.set_shift((Sc) sigma);
+            op.perform_op(x.data(), y.data());
+        }
+        catch (const std::exception&)
+        {
+            // the shifted matrix is nonsingular by construction: a rejected factorization is logged as a non-finite result
+            y.setConstant(std::numeric_limits<typename Eigen::NumTraits<Sc>::Real>::quiet_NaN());
+        }
         return y;
     });
     // strict: the residual is judged as a BACKWARD error (no condition-number allowance): graded "pivot trap" inputs
